@@ -22,7 +22,9 @@ from ..rules_tables import module_tree
 POOL = ["1.0", "1.0.0", "1.0.1b2", "1.0.1", "1.1.dev1", "1.1", "1.1.post1", "1.2.0", "2.0a1", "2.0", "2.post1", "2.0.1", "2.1",
         "2.1.3", "3.9", "3.9.post1", "3.10.0", "4", "1!1.0", "1!1.1", "1!2.0.0",
         # zero-numbered suffixes (falsy ints) and a final two steps above
-        "1.2.0.dev0", "1.3.0.post0", "2.0rc0", "1.3"]
+        "1.2.0.dev0", "1.3.0.post0", "2.0rc0", "1.3",
+        # a bound with fewer release segments than its neighbour one step above ("4" vs "4.1" / "4.1.0"), and ~= one level up
+        "4.1", "4.1.0", "5"]
 _D = {}
 
 
